@@ -289,6 +289,9 @@ func checkStartingPoint(c *core.Ctx, e *eff.Engine, f *eff.Func, pn string) {
 // ---------------------------------------------------------------------------
 // R1 clones: freshness of the returned object
 
+// cloneShareOK: when set (iterator clones), values of the types it accepts may be shared between clone and source.
+var cloneShareOK func(types.Type) bool
+
 // mutableFields: struct fields through which some function of the library writes deeper than the field itself
 // (elements, pointees): sharing such a field between a clone and its source is observable.
 var mutableFields map[string]string
@@ -496,6 +499,9 @@ func readOnlyUse(info *types.Info, constM map[string]bool, stack []ast.Node, i i
 		if i >= 2 {
 			if call, ok := stack[i-2].(*ast.CallExpr); ok && call.Fun == p {
 				nm := p.Sel.Name
+				if nm == "Next" {
+					return false // stepping an iterator changes it, whatever stratum its interface belongs to
+				}
 				if constM[nm] || strings.HasPrefix(nm, "Clone") || nm == "clone" || nm == "String" || nm == "Table" || nm == "ElementType" || nm == "storageLocation" && false {
 					// results of const accessors are values or const references
 					return true
@@ -592,9 +598,17 @@ func checkClones(c *core.Ctx, e *eff.Engine) {
 		if !isClone && !isAs {
 			continue
 		}
-		// iterators share the container they iterate (reviewed)
+		// iterators share the container they iterate (reviewed), but not the iterators they are built from: a clone that
+		// shares a nested iterator advances together with its source
+		cloneShareOK = nil
 		if T := core.RecvTypeName(f.Decl); strings.Contains(T, "Iterator") {
-			continue
+			if !isClone || f.Decl.Recv == nil {
+				continue
+			}
+			cloneShareOK = func(t types.Type) bool {
+				n := eff.TypeName(t)
+				return !strings.Contains(n, "Iterator")
+			}
 		}
 		if f.Decl.Type.Results == nil || len(f.Decl.Type.Results.List) == 0 {
 			continue
@@ -681,6 +695,11 @@ func cloneFresh(c *core.Ctx, e *eff.Engine, f *eff.Func) (string, token.Pos) {
 		}
 		if tv, ok := info.Types[x]; ok && !refKindType(tv.Type) {
 			return true, ""
+		}
+		if tv, ok := info.Types[x]; ok && cloneShareOK != nil && cloneShareOK(tv.Type) {
+			if _, isStar := ast.Unparen(x).(*ast.StarExpr); !isStar {
+				return true, "" // the iterated container (or a plain value) is shared by design
+			}
 		}
 		switch v := ast.Unparen(x).(type) {
 		case *ast.Ident:
@@ -876,6 +895,9 @@ func cloneFresh(c *core.Ctx, e *eff.Engine, f *eff.Func) (string, token.Pos) {
 				}
 				return true
 			})
+			if !reassigned && cloneShareOK != nil && cloneShareOK(fld.Type()) {
+				continue
+			}
 			if !reassigned {
 				owner := namedOfType(cp.local.Type())
 				if w := structFieldMutable(fld.Type()); w != "" && mutableFields[owner+"."+fld.Name()] == "" {
